@@ -197,7 +197,7 @@ def build(kind, fname, extra, rg, probe, vals=None):
     base = kind[4:] if kind.startswith("sib:") else kind
 
     nnk = ("nn_flat", "nn_nested", "nn_tied", "nn_method", "nn_call", "nn_extra")
-    need_param = {"a": base in nnk + ("em_nn", "multi_nn_em", "multi3"), "b": base in nnk + ("multi_em_nn",)}
+    need_param = {"a": base in nnk + ("em_nn", "multi_nn_em", "multi3"), "b": base in nnk + ("multi_em_nn", "both", "both_rev")}
     a = _mk_leaf(vals["a"], "a" in rg, need_param["a"])
     b = _mk_leaf(vals["b"], "b" in rg, need_param["b"])
     p = _mk_leaf(vals["p"], "p" in rg, False)
@@ -526,6 +526,36 @@ def build(kind, fname, extra, rg, probe, vals=None):
         rep.holders = [m]
         rep.slots = [(m, "a2", 0), (m, "b", 1)]
         rep.nobj = 2
+    elif base in ("both", "both_rev"):
+        # a class that is a torch.nn.Module AND an EditableModule (either order of the bases): it is an
+        # EditableModule, so what getparamnames declares counts - here a derived tensor that is no registered
+        # Parameter next to a registered Parameter
+        bases = (torch.nn.Module, EditableModule) if base == "both" else (EditableModule, torch.nn.Module)
+
+        class Both(*bases):
+            def __init__(self):
+                torch.nn.Module.__init__(self)
+                self.a2 = a * a          # derived, not a Parameter
+                self.b = b               # registered Parameter
+
+            def fn(self, *args):
+                probe.tick()
+                xs, pp, s = split(args)
+                return core(*xs, self.a2, self.b, pp, s)
+
+            def logp(self, x):
+                probe.tick()
+                return logp_core(x, self.a2, self.b)
+
+            def getparamnames(self, methodname, prefix=""):
+                if methodname in ("fn", "logp"):
+                    return [prefix + "a2", prefix + "b"]
+                raise KeyError(methodname)
+        m = Both()
+        rep.fcn, rep.params, rep.logp = m.fn, (p,) + s_tuple, m.logp
+        rep.holders = [m]
+        rep.slots = [(m, "a2", 0), (m, "b", 1)]
+        rep.nobj = 2
     elif base == "em_alias":
         class EMAlias(EditableModule):
             def __init__(self):
@@ -705,7 +735,7 @@ def build(kind, fname, extra, rg, probe, vals=None):
         raise ValueError(kind)
 
     # how the function's (asq, b) are obtained from the list of unique object parameters, in xitorch's order
-    if base == "em_derived":
+    if base in ("em_derived", "both", "both_rev"):
         rep.from_unique = lambda U: (U[0], U[1])
     elif base == "nn_nested":
         rep.from_unique = lambda U: (U[1] * U[1], U[0])
